@@ -55,13 +55,18 @@ REAL_STUB = {
     "stub": ["file system + clock (SimFS, SimClock) behind jinja2.loaders.os/open", "loader storage (mutable dict)",
              "thread scheduler (baton passing; sys.monitoring LINE/INSTRUCTION events) and threading.Lock -> SimLock in concurrent runs"],
 }
-BUDGET = {"quick": 25, "thorough": 600}
+BUDGET = {"quick": 26, "thorough": 600}
 NAMES = ("a", "b", "c")
 SIZES = (2, 0, 1, 3, -1, 400)
 KINDS = ("dict", "func-str", "func-triple", "fs", "fs2", "choice", "prefix", "choice-fs")
 _VER = re.compile(r"^\[?(\w+):v(\d+):7\]?$")
 CHILD = "k"  # a template that extends 'a' and wraps its block in [ ... super() ... ]; its own source never changes
 CHILD_SRC = "{% extends 'a' %}{% block b %}[{{ super() }}]{% endblock %}"
+# second flavour: the child includes (tolerating only its OWN absence) a helper that includes 'a' plainly - a missing
+# 'a' must still surface as TemplateNotFound through both levels
+CHILD_SRC_INC = "[{% include 'k2' ignore missing %}]"
+HELPER = "k2"
+HELPER_SRC = "{% include 'a' %}"
 _setup_done = False
 
 
@@ -105,6 +110,7 @@ class Storage:
         self.ndirs = 2 if kind in ("fs2", "choice", "choice-fs") else 1
         self.dirs = [F.ROOT + f"t0d{i}" for i in range(self.ndirs)]
         self.mappings: list[dict[str, str]] = [{}, {}]  # kind 'choice': one mapping per delegate loader
+        self.child_includes = False
         self.outage = False  # kind 'func-triple': while set, load() and the up-to-date check raise OSError
         self.outage_hits = 0
 
@@ -114,7 +120,9 @@ class Storage:
 
     def src(self, name: str, v: int) -> str:
         if name == CHILD:
-            return CHILD_SRC
+            return CHILD_SRC_INC if self.child_includes else CHILD_SRC
+        if name == HELPER:
+            return HELPER_SRC
         return "{% block b %}" + f"{name}:v{v}:{{{{ x }}}}" + "{% endblock %}"
 
     def _recompute(self, name: str) -> None:
@@ -615,6 +623,9 @@ def run(tape) -> Outcome:
     with_bcc = tape.draw(3, "m") == 2  # an (in-memory) bytecode cache must not change what the template cache serves
     with_child = kind in ("dict", "func-triple", "func-str", "fs") and tape.draw(4, "m") == 3
     if with_child:
+        st.child_includes = tape.draw(2, "m") == 1
+        if st.child_includes:
+            st.write(HELPER)
         st.write(CHILD)
     env0 = jinja2.Environment(loader=st.make_loader(), auto_reload=auto_reload, cache_size=size,
                               bytecode_cache=_mem_bytecode_cache() if with_bcc else None)
@@ -639,7 +650,7 @@ def run(tape) -> Outcome:
     gc.disable()
     try:
         for i in range(nops):
-            k = tape.weighted([6, 2, 4, 2, 1, 1, 3, 1, 1, 1, 1 if kind in ("dict", "prefix") else 0])
+            k = tape.weighted([6, 2, 4, 2, 1, 1, 3, 1, 1, 1, 1 if kind in ("dict", "prefix") else 0, 1])
             if k in (0, 1):
                 ei = tape.draw(len(envs)) if len(envs) > 1 else 0
                 env, model = envs[ei], models[ei]
@@ -679,7 +690,10 @@ def run(tape) -> Outcome:
                     if n == CHILD and acc not in ({"oserror"}, {"notfound"}):
                         # rendering the child loads its parent through the same cache: what the render shows is
                         # whatever a lookup of 'a' serves now (the child's own cached object must not pin an old parent)
-                        acc, res = model.lookup(st, "a", mfault)
+                        if st.child_includes:
+                            acc, res = model.lookup(st, HELPER, mfault)
+                        if acc not in ({"oserror"}, {"notfound"}):
+                            acc, res = model.lookup(st, "a", mfault)
                         n = "a"
                     if acc == {"oserror"}:
                         expected = acc
@@ -765,13 +779,20 @@ def run(tape) -> Outcome:
                 # a new overlay of the (already used) first environment replaces / becomes the second environment
                 ov = env0.overlay()
                 if len(envs) > 1:
-                    envs[1], models[1] = ov, Model(size, auto_reload, kind)
+                    envs[1], models[1] = ov, Model(size, env0.auto_reload, kind)  # an overlay copies the CURRENT setting
                 else:
                     envs.append(ov)
-                    models.append(Model(size, auto_reload, kind))
+                    models.append(Model(size, env0.auto_reload, kind))
                 seen_current = {x for x in seen_current if x[0] != 1}
                 pending = {x for x in pending if x[0] != 1}
                 ops_dec.append(["new_overlay"])
+            elif k == 11:
+                # auto_reload is a public attribute that applications switch at run time (templates loaded while it
+                # was off carry an up-to-date callback all the same and are checked once it is on)
+                ei = tape.draw(len(envs)) if len(envs) > 1 else 0
+                envs[ei].auto_reload = not envs[ei].auto_reload
+                models[ei].auto_reload = envs[ei].auto_reload
+                ops_dec.append([f"env{ei}", "auto_reload=" + str(envs[ei].auto_reload)])
             elif k == 10:
                 # the loader keeps its identity (and so its cache entries) but its public ``mapping`` attribute is
                 # REPLACED by another dict: other content for some names, one name possibly gone
